@@ -33,7 +33,11 @@ func symCfg() vcfg {
 	case 2:
 		c.bits = 16
 	}
-	if vrt.Param("symsizes", 1) != 0 {
+	if fixed := vrt.Param("ifs", 0); fixed != 0 {
+		// concrete limits chosen by the check configuration
+		c.ifs = uint32(fixed)
+		c.pfs = uint32(vrt.Param("pfs", fixed))
+	} else if vrt.Param("symsizes", 1) != 0 {
 		c.ifs = vrt.U32("ifs")
 		c.pfs = vrt.U32("pfs")
 		vrt.Assume(c.ifs >= 1)
